@@ -50,6 +50,7 @@ type cfgSpec struct {
 	Host          bool     `json:"host_global,omitempty"`    // adds the host global c11_host
 	Variadic      bool     `json:"variadic,omitempty"`       // WithoutGlobals(a, b) instead of two WithoutGlobal
 	Family        string   `json:"family,omitempty"`         // deny-list family (built repeatedly: the list is applied in Go map order)
+	Listeners     bool     `json:"listeners_allowed,omitempty"` // WithListenersAllowed (what the CLI always passes)
 	PreparedVM    bool     `json:"prepared_vm,omitempty"`    // the script runs through risor.WithVM on a VM created with the default configuration (vm.New) that has never run
 	ReuseVM       bool     `json:"reuse_vm,omitempty"`       // the script runs through risor.WithVM on a VM that has already run under the default configuration
 }
@@ -80,6 +81,9 @@ func (c cfgSpec) String() string {
 	var p []string
 	if c.NoDefaults {
 		p = append(p, "WithoutDefaultGlobals")
+	}
+	if c.Listeners {
+		p = append(p, "WithListenersAllowed")
 	}
 	if c.Host {
 		p = append(p, "WithGlobal(c11_host)")
@@ -126,6 +130,9 @@ func newRepl(kind string) object.Object {
 func (c cfgSpec) options() (opts []risor.Option, repl object.Object) {
 	if c.NoDefaults {
 		opts = append(opts, risor.WithoutDefaultGlobals())
+	}
+	if c.Listeners {
+		opts = append(opts, risor.WithListenersAllowed())
 	}
 	if c.Host {
 		opts = append(opts, risor.WithGlobal("c11_host", object.NewBuiltin("c11_host", noop)))
@@ -591,6 +598,25 @@ func (u *universe) closureOracle(r *ev.Run, report reporter, c cfgSpec, in caseI
 			}
 		}
 	}
+	// a module that can be called runs one of its own member functions: with the member denied or overridden, the call
+	// is an access path to the function that was registered under the removed name like any other
+	for _, v := range g.nodes {
+		m, isMod := v.obj.(*object.Module)
+		if !isMod {
+			continue
+		}
+		hook := moduleHook(m)
+		if hook == "" {
+			continue
+		}
+		for n := range removed {
+			un := u.byName[n]
+			if un == nil || un.Mod != m.Name().Value() || !strings.HasSuffix(un.FP, "|"+hook) {
+				continue
+			}
+			report("closure-removed-function-called-by-module", fmt.Sprintf("%s: calling the module %s itself still runs %s, the function registered as %s", c.String(), v.path, hook, n), in, v.path+"(...) runs "+hook, "not reachable, or the replacement")
+		}
+	}
 	for o := range overridden {
 		nd, ok := g.resolve(o)
 		switch {
@@ -813,6 +839,14 @@ func Check(r *ev.Run, replay string) {
 		singles = append(singles, cfgSpec{Override: []string{n.Name}, Repl: "builtin"})
 	}
 	singles = append(singles, cfgSpec{NoDefaults: true}, cfgSpec{NoDefaults: true, Host: true})
+	// the option that changes what the http module is built with, next to each way of taking http away
+	singles = append(singles, cfgSpec{NoDefaults: true, Listeners: true}, cfgSpec{NoDefaults: true, Host: true, Listeners: true},
+		cfgSpec{Deny: []string{"http"}, Listeners: true}, cfgSpec{Override: []string{"http"}, Repl: "builtin", Listeners: true}, cfgSpec{Override: []string{"http"}, Repl: "module", Listeners: true})
+	for _, n := range u.names {
+		if n.Mod == "http" {
+			singles = append(singles, cfgSpec{Deny: []string{n.Name}, Listeners: true}, cfgSpec{Override: []string{n.Name}, Repl: "builtin", Listeners: true})
+		}
+	}
 	// a host that keeps one VM (risor.WithVM): the VM has run under the default configuration, the
 	// script under test then runs on it with a whole module denied / without the defaults
 	for _, n := range u.names {
